@@ -816,7 +816,7 @@ func (w *world) startRecovered(p crash.Point, n **node.Node, walMgr *replica.Wri
 			}
 		}
 	}
-	deadline := time.Now().Add(10 * time.Second)
+	deadline := time.Now().Add(replayWait)
 	for _, im := range imgs {
 		for im.present {
 			ack, ok := acks[im.lg.leader]
@@ -837,6 +837,7 @@ func (w *world) startRecovered(p crash.Point, n **node.Node, walMgr *replica.Wri
 
 func newCluster(n *node.Node, db string) *node.Cluster {
 	c := node.NewCluster()
+	c.Timeout = queryTimeout
 	c.AddLeaf("leaf:1", n.Engine, "")
 	c.SetLayout(db, node.DBOption(timeutil.Interval(10_000)), map[string][]models.ShardID{"leaf:1": {0}})
 	return c
